@@ -203,8 +203,8 @@ PROPS["C02"] = {
 }
 PROPS["C07"] = {
     "level": "other",
-    "technique": "deductive verification of Scaffold.append_scaffold (gap inserted iff joining onto existing rows), of the left-over rule of BuildAssembly.add_missing_scaffolds_from_input (per input row), of the fusion loop of BuildAssembly.scaffolds_fused_by_name (per piece: fused under (tag, haplotype, name), join gap iff joining), of the no-terminal-gap invariant of overlap results, of to_scaffold; bounded gap oracle over remapping runs",
-    "level_text": "Proved: append_scaffold inserts the given gap exactly when a gap is given and the scaffold already has rows, keeps the existing rows and appends the other scaffold's rows in order; find_overlaps and every trimming operation leave first and last rows that are contigs (no output piece begins or ends with a gap); to_scaffold keeps or exactly reverses the rows; scaffolds_fused_by_name skips pieces without rows and appends every other piece to the fused scaffold of its key (tag, haplotype, name) - created with the piece's name, tag, haplotype and rank when the key is new - behind the join gap exactly when that scaffold already had rows, keeping its earlier rows and every other fused scaffold (per iteration of the fusion loop). add_missing_scaffolds_from_input walks every input scaffold row by row (per-row postcondition over the inlined generator): a contig the map placed adds nothing, a contig it did not place is appended to the left-over scaffold (named after the input scaffold, rank 3) preceded by nothing when the previously appended contig is the row just before it, by the input gap rows - all of them, in order - when only gap rows lie between the two, and by the join gap otherwise - the sites of the repaired defects 0f837d3 / 7fa0cee / 51684fd are under contract. Bounded: the gap rule over whole runs (adjacency only where the input had it, input gap only between its own neighbours, join gap elsewhere) - the two sites of the repaired defects (0f837d3, 7fa0cee).",
+    "technique": "deductive verification of Scaffold.append_scaffold (gap inserted iff joining onto existing rows), of the left-over rule of BuildAssembly.add_missing_scaffolds_from_input (per input row), of the fusion loop of BuildAssembly.scaffolds_fused_by_name (per piece: fused under (tag, haplotype - for untagged pieces only -, name), join gap iff joining), of the no-terminal-gap invariant of overlap results, of to_scaffold; bounded gap oracle over remapping runs",
+    "level_text": "Proved: append_scaffold inserts the given gap exactly when a gap is given and the scaffold already has rows, keeps the existing rows and appends the other scaffold's rows in order; find_overlaps and every trimming operation leave first and last rows that are contigs (no output piece begins or ends with a gap); to_scaffold keeps or exactly reverses the rows; scaffolds_fused_by_name skips pieces without rows and appends every other piece to the fused scaffold of its key (tag, haplotype - for untagged pieces only -, name) - created with the piece's name, tag, haplotype and rank when the key is new - behind the join gap exactly when that scaffold already had rows, keeping its earlier rows and every other fused scaffold (per iteration of the fusion loop). add_missing_scaffolds_from_input walks every input scaffold row by row (per-row postcondition over the inlined generator): a contig the map placed adds nothing, a contig it did not place is appended to the left-over scaffold (named after the input scaffold, rank 3) preceded by nothing when the previously appended contig is the row just before it, by the input gap rows - all of them, in order - when only gap rows lie between the two, and by the join gap otherwise - the sites of the repaired defects 0f837d3 / 7fa0cee / 51684fd are under contract. Bounded: the gap rule over whole runs (adjacency only where the input had it, input gap only between its own neighbours, join gap elsewhere) - the two sites of the repaired defects (0f837d3, 7fa0cee).",
     "level_note": PIPE_NOTE,
     "lemmas": [],
     "bounded": [("bounded.c07", {})],
@@ -226,7 +226,7 @@ PROPS["C08"] = {
 PROPS["C09"] = {
     "level": "other",
     "technique": "deductive verification of ScaffoldNamer.label_scaffold (decision table of destination tags, rank, haplotype) and of the routing loop of BuildAssembly.assemblies_with_scaffolds_fused (per fused scaffold: destination assembly and its curated flag) + bounded routing oracle per piece over tagged PretextView-model maps, down to the files the CLI writes",
-    "level_text": "Proved: label_scaffold tags a piece FalseDuplicate, Haplotig or Contaminant exactly as its own tags say (in that precedence), tags it Contaminant in Target mode when the Pretext scaffold has no Target tag, gives such pieces rank 3, leaves other pieces untagged with the scaffold's rank, and records the current haplotype; assemblies_with_scaffolds_fused puts every fused scaffold into exactly one output assembly - the assembly of its destination tag if it has one (created not curated), otherwise of its haplotype, otherwise the primary one (both created curated) - appends it there, reuses an assembly that already exists and leaves the other assemblies and all curated flags alone (per iteration of the routing loop; the list of fused scaffolds, ChrNamer and the statistics are opaque there). Bounded: fusion by (tag, haplotype, name), the file names the CLI derives from the curated flag, Target-mode treatment of sequence absent from the map, name-derived haplotypes. Known findings: C09-name-derived-haplotype, C09-haplotype-prefix-name-shape.",
+    "level_text": "Proved: label_scaffold tags a piece FalseDuplicate, Haplotig or Contaminant exactly as its own tags say (in that precedence), tags it Contaminant in Target mode when the Pretext scaffold has no Target tag, gives such pieces rank 3, leaves other pieces untagged with the scaffold's rank, and records the current haplotype; assemblies_with_scaffolds_fused puts every fused scaffold into exactly one output assembly - the assembly of its destination tag if it has one (created not curated), otherwise of its haplotype, otherwise the primary one (both created curated) - appends it there, reuses an assembly that already exists and leaves the other assemblies and all curated flags alone (per iteration of the routing loop; the list of fused scaffolds, ChrNamer and the statistics are opaque there). Bounded: fusion by (tag, haplotype - for untagged pieces only -, name), the file names the CLI derives from the curated flag, Target-mode treatment of sequence absent from the map, name-derived haplotypes. Known findings: C09-name-derived-haplotype, C09-haplotype-prefix-name-shape.",
     "level_note": PIPE_NOTE,
     "lemmas": [],
     "bounded": [("bounded.c09", {})],
